@@ -1314,7 +1314,17 @@ class Fn:
             table = self.t["random_sites"]
             if idx is None or len(sites) != len(table):
                 raise NotTranslatable(f"{len(sites)} random draws where the binding table knows {len(table)}")
-            return table[idx]
+            return table[idx](self, node, env) if callable(table[idx]) else table[idx]
+        if fname not in self.t.get("calls", {}) and isinstance(node.func, ast.Attribute):
+            # a binding for a method chain on ANY receiver of the right type: "*.label.dump" (the receiver's name is not part of it)
+            for key_, h_ in self.t.get("calls", {}).items():
+                if key_.startswith("*.") and fname.endswith(key_[1:]):
+                    depth_ = key_.count(".")
+                    recv_node_ = node.func
+                    for _ in range(depth_):
+                        recv_node_ = recv_node_.value
+                    re_, rt_ = self.expr(recv_node_, env)
+                    return h_(self, args, kw, env, (re_, rt_))
         if fname in self.t.get("calls", {}):
             pmark_ = len(self.pending)
             r_ = self.t["calls"][fname](self, args, kw, env)
